@@ -13,6 +13,9 @@ Judge of recorded histories (the property predicate `Spec.LinearizedBy`, executa
     …
     end            -> `1` or `0 <clause that fails> [detail]`
     endfast        -> same without the (cubic) real-time clause and for long histories
+    endsearch <n>  -> ignores the hook stamps: depth-first search (at most n nodes) for ANY order that is
+                      compatible with real time and reproduces the results; a found order is passed
+                      through `checkLin`; `1`, `0 no-linearization-exists` or `? budget-exhausted`
 
 `order` = the operations that carry a hook stamp, sorted by it; the claimed sequential answers are
 those of `C07.step` along that order (so `legal` holds by construction and is still evaluated);
@@ -106,6 +109,49 @@ def judge (st : DState) (fast : Bool) : String :=
         s!"0 {why} tid={r.tid} idx={r.idx} got={(r.resp.map fun p => retStr p.2).getD "-"} sequential={exp.getD "-"}"
       | none => s!"0 {why}"
 
+/-! ### hook-independent search for *some* linearization (Wing–Gong style DFS) -/
+
+/-- no other remaining operation responded before `j` was invoked -/
+def minimalIn (rem : List JRec) (j : JRec) : Bool :=
+  rem.all fun j' => match j'.r.resp with
+    | some (t, _) => !(decide (t < j.r.inv))
+    | none => true
+
+/-- depth-first search over the orders compatible with real time, pruned by the recorded results;
+`budget` bounds the number of visited nodes.  Candidates are tried in hook-stamp order (a
+heuristic only: the verdict does not depend on the stamps). -/
+def dfs : Nat → State → List JRec → List Lin → Nat → Option (List Lin) × Nat
+  | 0, _, _, _, b => (none, b)
+  | fuel + 1, s, rem, acc, b =>
+    if rem.isEmpty then (some acc.reverse, b)
+    else
+      let cands := (rem.filter (minimalIn rem)).mergeSort fun a b => a.lin.getD 0 ≤ b.lin.getD 0
+      cands.foldl (fun (rb : Option (List Lin) × Nat) j =>
+        if rb.1.isSome || rb.2 == 0 then rb
+        else
+          let so := step s j.r.op
+          let ok : Bool := match j.r.resp with
+            | some (_, ret) => alignRet ret so.2 == .ok so.2
+            | none => true
+          if ok then
+            dfs fuel so.1 (rem.filter fun j' => !(j'.r.tid == j.r.tid && j'.r.idx == j.r.idx))
+              (⟨j.r.tid, j.r.idx, j.r.op, acc.length, so.2⟩ :: acc) (rb.2 - 1)
+          else (none, rb.2 - 1)) (none, b)
+
+def searchJudge (st : DState) (budget : Nat) : String :=
+  let recs := st.recs.reverse
+  match dfs (recs.length + 1) st.s0 recs [] budget with
+  | (some order, _) =>
+    let aligned : List Rec := recs.map fun j =>
+      match j.r.resp, order.find? (fun e => e.tid == j.r.tid && e.idx == j.r.idx) with
+      | some (t, ret), some e => { j.r with resp := some (t, alignRet ret e.out) }
+      | _, _ => j.r
+    (match checkLin st.s0 aligned order with
+     | none => "1"
+     | some w => "0 search-result-rejected " ++ w)
+  | (none, 0) => "? budget-exhausted"
+  | (none, _) => "0 no-linearization-exists"
+
 def simSummary (c : Config) : String :=
   s!"clock={c.clock} log={c.log.length} done={(c.threads.map fun th => th.done.length).sum} alldone={boolStr c.allDone}"
 
@@ -129,6 +175,7 @@ def stepLine (st : DState) (line : String) : DState × String :=
     | _, _, _, _, _, _ => (st, "bad-op")
   | ["end"] => ({ st with recs := [] }, judge st false)
   | ["endfast"] => ({ st with recs := [] }, judge st true)
+  | ["endsearch", budget] => ({ st with recs := [] }, searchJudge st (budget.toNat?.getD 100000))
   | ["sim", limit, n] =>
     match limit.toNat?, n.toNat? with
     | some l, some n => ({ st with s0 := State.init l none, progs := List.replicate n [], sim := none }, "ok")
